@@ -21,6 +21,47 @@ use zlink_core::{
     Call, Connection, Listener as _,
 };
 
+// ---- a watchdog for steps that can only block the executor thread ---------------------------------
+//
+// Establishing a local connection (socketpair, bind + connect + accept) takes microseconds. If that
+// step makes no progress for 60 s the executor thread is blocked inside it (e.g. a blocking accept(2)
+// on a listener that was left in blocking mode), which no cooperative timer can interrupt. A watchdog
+// thread then writes a report with that one violation and ends the process. Data transfer phases are
+// never judged by time.
+
+static PHASE: std::sync::Mutex<Option<(String, std::time::Instant, bool)>> = std::sync::Mutex::new(None);
+
+fn phase(what: &str, judged: bool) {
+    *PHASE.lock().unwrap() = Some((what.to_string(), std::time::Instant::now(), judged));
+}
+
+fn start_watchdog(out: Option<String>) {
+    std::thread::spawn(move || loop {
+        std::thread::sleep(Duration::from_secs(2));
+        let p = PHASE.lock().unwrap().clone();
+        if let Some((what, since, true)) = p {
+            if since.elapsed() > Duration::from_secs(60) {
+                let mut rep = Report::new("C19", "c19");
+                rep.evaluations = 1;
+                rep.distinct.insert(1);
+                rep.violation(
+                    &format!("C19/connection-setup-blocks-the-executor:{}", what.split(' ').next().unwrap_or("")),
+                    format!("no progress for 60 s while establishing a local connection ({what}): the executor thread is blocked"),
+                    json!({"monitor": "c19", "case": what}),
+                );
+                let js = serde_json::to_string(&rep.to_json()).unwrap();
+                match &out {
+                    Some(p) => {
+                        let _ = std::fs::write(p, js);
+                    }
+                    None => println!("{js}"),
+                }
+                std::process::exit(0);
+            }
+        }
+    });
+}
+
 #[derive(Debug, Clone, Copy, PartialEq, Eq)]
 pub enum Kind {
     TokioCurrent,
@@ -100,6 +141,20 @@ pub fn sizes(rng: &mut Rng, n: usize, max: usize) -> Vec<usize> {
             _ => rng.range(1, 2000),
         })
         .collect()
+}
+
+/// Body length that makes the serialized call (without NUL) exactly `target` bytes long.
+pub fn exact_fit(dir: u8, id: u64, target: usize) -> Option<usize> {
+    let mut len = target.checked_sub(60)?;
+    for _ in 0..4 {
+        let call = Call::new(Msg::Data { id, dir, len, body: Cow::Owned(body(dir, id, len)) });
+        let n = serde_json::to_vec(&call).ok()?.len();
+        if n == target {
+            return Some(len);
+        }
+        len = (len + target).checked_sub(n)?;
+    }
+    None
 }
 
 async fn send_all<W: zlink_core::connection::socket::WriteHalf>(kind: Kind, w: &mut WriteConnection<W>, dir: u8, sizes: &[usize], pace: u64) -> Result<u64, String> {
@@ -257,7 +312,17 @@ struct XCase {
 fn transfer(c: &XCase, rep: &mut Report, dir: &std::path::Path) {
     let kind = c.kind;
     let mut rng = Rng::derive(c.seed, 19);
-    let plans: Vec<(Vec<usize>, Vec<usize>)> = (0..c.nconn).map(|_| (sizes(&mut rng, c.nmsg, c.max), sizes(&mut rng, c.nmsg, c.max))).collect();
+    let mut plans: Vec<(Vec<usize>, Vec<usize>)> = (0..c.nconn).map(|_| (sizes(&mut rng, c.nmsg, c.max), sizes(&mut rng, c.nmsg, c.max))).collect();
+    // the first messages of the first connection are sized so that the frame is exactly 256, 512, 768 ...
+    // bytes long, i.e. ends exactly where the (fresh, then grown) write buffer ends
+    for dir in 0..2u8 {
+        let plan = if dir == 0 { &mut plans[0].0 } else { &mut plans[0].1 };
+        for j in 0..plan.len().min(4) {
+            if let Some(len) = exact_fit(dir, j as u64, 256 * (j + 1)) {
+                plan[j] = len;
+            }
+        }
+    }
     let desc = format!("{} {:?} conns={} msgs={} max={} pace_w={} pace_r={} seed={}", kind.name(), c.how, c.nconn, c.nmsg, c.max, c.pace_w, c.pace_r, c.seed);
     let replay = json!({"monitor": "c19", "case": desc});
     let how = c.how;
@@ -269,10 +334,12 @@ fn transfer(c: &XCase, rep: &mut Report, dir: &std::path::Path) {
             let path = dir.join(format!("s{}-{}.sock", c.seed % 100_000, i));
             let _ = std::fs::remove_file(&path);
             futs.push(async move {
+                phase(&format!("{:?}:{} seed {}", how, kind.name(), 0), true);
                 let r = pairs!(kind, how, path, {
                     match tokio_pair(how, &path).await {
                         Err(e) => Err(("inconclusive".to_string(), format!("could not create socket pair: {e}"))),
                         Ok((a, b)) => {
+                            phase("exchange", false);
                             let ids = (a.id(), b.id());
                             exchange(kind, a, b, ab, ba, pw, pr).await.map(|(n, s)| (n, s, ids.0, ids.1))
                         }
@@ -281,6 +348,7 @@ fn transfer(c: &XCase, rep: &mut Report, dir: &std::path::Path) {
                     match smol_pair(how, &path).await {
                         Err(e) => Err(("inconclusive".to_string(), format!("could not create socket pair: {e}"))),
                         Ok((a, b)) => {
+                            phase("exchange", false);
                             let ids = (a.id(), b.id());
                             exchange(kind, a, b, ab, ba, pw, pr).await.map(|(n, s)| (n, s, ids.0, ids.1))
                         }
@@ -631,6 +699,7 @@ fn ids_case(rep: &mut Report, threads: usize, per: usize) {
 
 pub fn run(cfg: &Cfg) -> Report {
     let mut rep = Report::new("C19", "c19");
+    start_watchdog(cfg.out.clone());
     let dir = sock_dir();
     let heavy = cfg.layer == "asan" || cfg.layer == "tsan";
     let mut rng = cfg.rng(191);
@@ -670,6 +739,7 @@ pub fn run(cfg: &Cfg) -> Report {
     if (only.is_none() || only == Some("ids")) && cfg.shard == 0 {
         ids_case(&mut rep, 8, if cfg.thorough { 4000 } else { 500 });
     }
+    phase("done", false);
     let _ = std::fs::remove_dir_all(&dir);
     rep
 }
